@@ -2,7 +2,7 @@
    list, prod, unit, sumbool map to OCaml's; Z/positive/N/nat stay inductive.
    No Extract Constant. *)
 From Coq Require Import Extraction ExtrOcamlBasic ZArith List.
-From Corro Require Import Lib.Ivl Model.Chunk Model.Book Model.SeqRows Model.BookOps Model.Needs Model.Members Lib.Utf8 Model.Pack Model.Wire Model.WireDescs Model.Ingest Model.IngestSched Model.ClusterGate Model.Partial Model.Serve Model.LocalTx Model.Crdt Model.Ivm Model.Updates Model.SchemaDiff Model.Authz Gen.Router Model.Catchup Gen.CatchupCfg Model.SubLife Gen.SubLifeCfg.
+From Corro Require Import Lib.Ivl Model.Chunk Model.Book Model.SeqRows Model.BookOps Model.Needs Model.Members Lib.Utf8 Model.Pack Model.Wire Model.WireDescs Model.Ingest Model.IngestSched Model.ClusterGate Model.Partial Model.Serve Model.LocalTx Model.Crdt Model.Ivm Model.Updates Model.SchemaDiff Model.Authz Gen.Router Model.Catchup Gen.CatchupCfg Model.SubLife Gen.SubLifeCfg Model.Backup.
 Extraction Language OCaml.
 Extraction "model.ml"
   Z.add Z.mul Z.sub Z.opp Z.div_eucl Z.of_nat Z.to_nat Z.compare Z.eqb Z.ltb Z.leb
@@ -28,4 +28,5 @@ Extraction "model.ml"
   SchemaDiff.exec SchemaDiff.insert_row SchemaDiff.find_dtab SchemaDiff.default_val
   Authz.api_serve Authz.all_guarded Router.api_router Router.authz_malformed_is_absent
   Catchup.catch_up Catchup.consecutive_from Catchup.client_run CatchupCfg.catchup_attempts CatchupCfg.forward_filters
-  SubLife.lrun SubLife.start_node SubLife.s_init SubLife.restored_at_start SubLife.restore_is_sound SubLifeCfg.cancel_returns.
+  SubLife.lrun SubLife.start_node SubLife.s_init SubLife.restored_at_start SubLife.restore_is_sound SubLifeCfg.cancel_returns
+  Backup.backup Backup.restore Backup.author.
